@@ -21,6 +21,7 @@ from . import battery, core
 from .threads import Deadlock, Scheduler, SimLock, StepCap
 
 PROP = "C19"
+DEEP_RATE = float(os.environ.get("VERIF_C19_DEEP", "0.0"))
 N_BASE_STRUCT = len(battery.STRUCT)
 
 
@@ -276,7 +277,11 @@ def gen_run(run_seed: int, tier: str) -> Dict[str, Any]:
             return ["GET", slot, "shared", r_ops.randrange(n_shared)]
         if x < 0.55:
             return ["GET", slot, "fresh", None]
-        return ["GET", slot, "user", rand_cfg()]
+        op = ["GET", slot, "user", rand_cfg()]
+        if r_ops.random() < 0.25:
+            # the user already used their converter on LSP types before handing it over
+            op.append([r_ops.randrange(nS) for _ in range(r_ops.randint(1, 4))])
+        return op
 
     threads: List[List[List[Any]]] = []
     for t in range(n):
@@ -352,6 +357,7 @@ def gen_run(run_seed: int, tier: str) -> Dict[str, Any]:
         policy = {"kind": "sequential"}
     policy["est_steps"] = 1500 * n
     buggify = sorted(s for s in BUGGIFY_SITES if r_sched.random() < 0.35) if n > 1 else []
+    deep = n > 1 and n_shared == 0 and r_sched.random() < DEEP_RATE
     return {
         "run_seed": run_seed,
         "shape": shape,
@@ -362,6 +368,7 @@ def gen_run(run_seed: int, tier: str) -> Dict[str, Any]:
         "start_after": start_after,
         "policy": policy,
         "buggify": buggify,
+        "deep": deep,
         "sched_seed": core.derive(run_seed, "sched-stream"),
     }
 
@@ -394,6 +401,7 @@ def execute(run: Dict[str, Any], golden: Dict[str, Any]) -> Dict[str, Any]:
         "forbid_extra_keys_config": 0,
         "extra_battery_used": 0,
         "dropped_and_collected": 0,
+        "preused_user_converter": 0,
     }
 
     # model: identity -> mode ('plain' | 'post' | 'pre' | 'unknown'); slots per thread
@@ -425,14 +433,23 @@ def execute(run: Dict[str, Any], golden: Dict[str, Any]) -> Dict[str, Any]:
     keep_alive: List[Any] = list(shared)
     registry: List[Any] = []  # converters in order of (completed) creation, for the final sweep
 
+    deep_files: List[str] = []
+    if run.get("deep"):
+        # swarm option: also pre-empt at source lines of the dependency modules that hold process-global
+        # state touched during first use (attrs type resolution, typing's evaluation, cattrs code
+        # generation and dispatch) — only in runs whose threads do not share a converter object
+        import attr._funcs, cattrs.converters, cattrs.dispatch, cattrs.gen, cattrs.gen._shared
+
+        deep_files = [m.__file__ for m in (attr._funcs, cattrs.converters, cattrs.dispatch, cattrs.gen, cattrs.gen._shared)]
     sched = Scheduler(
         n,
         run["policy"],
         run["sched_seed"],
         trace_dirs=[Z["pkg_dir"]],
+        extra_trace_files=deep_files,
         buggify_calls=run["buggify"],
         start_after=run["start_after"],
-        step_cap=run.get("step_cap", 600_000),
+        step_cap=run.get("step_cap", 4_000_000 if run.get("deep") else 600_000),
     )
     # locks created by lsprotocol modules from now on block in the scheduler, not in C
     import threading as _th
@@ -497,7 +514,7 @@ def execute(run: Dict[str, Any], golden: Dict[str, Any]) -> Dict[str, Any]:
             outcome: Any = None
             try:
                 if kind == "GET":
-                    _, s, how, arg = op
+                    s, how, arg = op[1], op[2], op[3]
                     if get_finished[0] and oi == 0:
                         probes["late_joiner"] += 1
                     if how == "fresh":
@@ -506,6 +523,10 @@ def execute(run: Dict[str, Any], golden: Dict[str, Any]) -> Dict[str, Any]:
                         cfgs.setdefault(id(c), "std")
                     elif how == "user":
                         base = make_user(arg)
+                        if len(op) > 4:
+                            for k_ in op[4]:
+                                do_use(base, k_)  # outcome not judged: not an lsprotocol converter yet
+                            probes["preused_user_converter"] += 1
                         cfgs[id(base)] = cfg_key(arg)
                         if cfg_key(arg) == "fek":
                             probes["forbid_extra_keys_config"] += 1
@@ -684,6 +705,7 @@ def execute(run: Dict[str, Any], golden: Dict[str, Any]) -> Dict[str, Any]:
         "shape": run["shape"],
         "policy": run["policy"]["kind"],
         "ops": sum(len(t) for t in run["threads"]),
+        "deep": bool(run.get("deep")),
         "swept": swept,
         "history": history[:40],
     }
